@@ -39,14 +39,15 @@ package reverse
 //@   ensures [other_registrations_untouched] forall(k, k != index ==> haskey(m.results, k) == old(haskey(m.results, k)) && m.results[k] == old(m.results[k]))
 //@   ensures [lock_released] ghost.held[addr(m.Mutex)] == 0
 
-//@ func (*resultMap).Set
+//@ func (*resultMap).SetIfAbsent
 //@   prop C09
 //@   nopanic
+//@   results stored
 //@   requires m != nil && m.results != nil
-//@   requires [index_not_pending] !haskey(m.results, index)
 //@   modifies m.results[*], ghost.held[addr(m.Mutex)]
-//@   ensures [registered] haskey(m.results, index) && m.results[index] == result
-//@   ensures [other_registrations_untouched] forall(k, k != index ==> haskey(m.results, k) == old(haskey(m.results, k)) && m.results[k] == old(m.results[k]))
+//@   ensures [never_overwrites_a_pending_call] stored == !old(haskey(m.results, index))
+//@   ensures [registered] stored ==> haskey(m.results, index) && m.results[index] == result
+//@   ensures [other_registrations_untouched] forall(k, k != index || !stored ==> haskey(m.results, k) == old(haskey(m.results, k)) && m.results[k] == old(m.results[k]))
 //@   ensures [lock_released] ghost.held[addr(m.Mutex)] == 0
 
 // the id a provider announces in its request headers (assumed: reads the context only)
